@@ -233,7 +233,9 @@ def protocol_problem(fields):
     if errs != cb:
         return "ret_eq_errors: return value %d != %d error callbacks" % (errs, cb)
     if fields["msgok"] != "1":
-        return "EMPTY-MESSAGE an error callback had an empty message (last error %s)" % fields.get("lasterr")
+        return "an error callback had an empty message (last error %s)" % fields.get("lasterr")
+    if fields["lineok"] != "1":
+        return "every_error_has_line: %s error callback(s) had line < 1 (first such message: %s)" % (fields.get("l0"), fields.get("l0msg") if fields.get("l0") != fields.get("l0eof") else "unexpected end of file")
     if fields["follow"] != "ok":
         return "follow-up compile+scan in the same process: %s" % fields["follow"]
     if errs == 0 and fields["rules"] != "1":
@@ -288,7 +290,6 @@ def run(tier, replay=None):
     sigs = collections.defaultdict(list)
     nontrivial = set()
     nprob = 0
-    line0 = []
     for l in out:
         cid = l.split(" ", 1)[0]
         hist[meta.get(cid, "?")] += 1
@@ -301,17 +302,7 @@ def run(tier, replay=None):
                 raise RuntimeError("corpus rule does not compile: %s -> %s" % (byid[cid][:200], l))
             if int(f["errs"]) > 0 and meta.get(cid) != "valid":
                 nontrivial.add(byid[cid].split(" ", 1)[1])
-            if f["lineok"] != "1":
-                line0.append((cid, l))
             p = protocol_problem(f)
-            if p and p.startswith("EMPTY-MESSAGE"):
-                kf = [x for x in known if x["signature"].get("empty_message") and x["signature"].get("last_error") == f.get("lasterr")]
-                if kf:
-                    outcomes["empty_message_wrong_type"] += 1
-                    if not any(k[0] is kf[0] for k in chk.known_hit):
-                        chk.known(kf[0], "%s error callback with an empty message for %s, e.g. `%s`" %
-                                  (kf[0]["id"], f.get("lasterr"), bytes.fromhex(byid[cid].split(" ")[2].replace("-", ""))[:160].decode("latin1")))
-                    p = None
             if p and nprob < 10:
                 nprob += 1
                 chk.violation("protocol_%d.json" % nprob, {"kind": "error-protocol-violation", "engine": "compile", "harness": "h_compile", "case": byid[cid],
@@ -320,67 +311,21 @@ def run(tier, replay=None):
                 found = True
         else:
             sigs[signature(l)].append((byid.get(cid), l[:5000]))
-    # line < 1: finding F53 iff the same text followed by one more token (so that the lexer is not at end of input when the error is
-    # raised) reports every line >= 1; anything else is a violation of every_error_has_line
-    if line0:
-        comp = []
-        SUFFIXES = [b"\n}", b"*/\n}", b"\"\n}", b"/\n}"]   # the 2nd..4th first close an unterminated comment / string / regexp that would swallow the extra token
-        for cid, l in line0:
-            m0 = re.search(r" l0=(\d+) l0eof=(\d+) ", l)
-            if m0 and m0.group(1) == m0.group(2):
-                continue                                     # decided by the message, no companion needed
-            t = byid[cid].split(" ")
-            for k, suf in enumerate(SUFFIXES):
-                src = bytes.fromhex(t[2].replace("-", "")) + suf
-                comp.append(" ".join(["c%d_%s" % (k, cid), t[1], src.hex()] + t[3:]))
-        cout, crc, cerr = core.run_parallel([b["h_compile"], "20"], comp, timeout=3000) if comp else ([], 0, "")
-        cres = {}
-        for l2 in cout:
-            key = l2.split(" ", 1)[0].split("_", 1)[1]
-            if " ok " in l2[:24] and " lineok=1 " in l2:
-                cres[key] = l2
-            else:
-                cres.setdefault(key, l2)
-        kf = [f for f in known if f["signature"].get("level") == "protocol" and f["signature"].get("line") == 0]
-        nk = 0
-        for cid, l in line0:
-            c = cres.get(cid, "")
-            eof_only = re.search(r" l0=(\d+) l0eof=(\d+) ", l)
-            # bison names its look-ahead in the message: "unexpected end of file" = the error was raised on the EOF token
-            if kf and ((eof_only and eof_only.group(1) == eof_only.group(2)) or (" ok " in c[:24] and " lineok=1 " in c)):
-                nk += 1
-            elif nprob < 10:
-                nprob += 1
-                chk.violation("line0_%d.json" % nprob, {"kind": "error-protocol-violation", "engine": "compile", "harness": "h_compile", "case": byid[cid],
-                                                        "source_text": bytes.fromhex(byid[cid].split(" ")[2].replace("-", ""))[:2000].decode("latin1"),
-                                                        "implementation": l, "companion": c[:300],
-                                                        "model_spec": "every_error_has_line: an error callback had line < 1 (and not only because the input was exhausted)"})
-                found = True
-        outcomes["line0_at_end_of_input"] = nk
-        if nk:
-            ex = byid[line0[0][0]].split(" ")[2]
-            chk.known(kf[0], "%s error callback with line 0 on %d input(s) whose error is raised at end of input, e.g. `%s`" %
-                      (kf[0]["id"], nk, bytes.fromhex(ex.replace("-", ""))[:80].decode("latin1")))
     n = 0
     for (kind, fn), lst in sorted(sigs.items()):
         outcomes["report:%s@%s" % (kind, fn)] = len(lst)
-
-        def is_f54(case, l):
-            allocs = re.findall(r"allocated from:(.*?)(?: ##  ## |$)", l)
-            return kind == "memory-leak" and " I" in case and allocs and all("yara_yy_scan_b" in a for a in allocs)
         kf = [f for f in known if f["signature"].get("kind") == kind and f["signature"].get("function") == fn]
-        hit = [(c, l) for c, l in lst if kf and (kf[0]["id"] != "F54" or is_f54(c, l))]
-        if hit:
-            chk.known(kf[0], "%s %s (%s) on %d input(s), e.g. `%s`" % (kf[0]["id"], kind, fn, len(hit),
-                                                                     bytes.fromhex(hit[0][0].split(" ")[2].replace("-", ""))[:120].decode("latin1")))
-        if True:
-            for case, l in [x for x in lst if x not in hit][:2]:
-                n += 1
-                chk.violation("sanitizer_%d.json" % n, {"kind": "crash-leak-or-hang", "engine": "compile", "harness": "h_compile", "case": case,
-                                                        "source_text": bytes.fromhex(case.split(" ")[2].replace("-", ""))[:2000].decode("latin1") if case else None,
-                                                        "signature": {"kind": kind, "function": fn}, "implementation": l,
-                                                        "model_spec": "compilation terminates, no ASan/UBSan/LSan report, compiler destroyable"})
-                found = True
+        if kf:
+            chk.known(kf[0], "%s %s (%s) on %d input(s), e.g. `%s`" % (kf[0]["id"], kind, fn, len(lst),
+                                                                     bytes.fromhex(lst[0][0].split(" ")[2].replace("-", ""))[:120].decode("latin1")))
+            continue
+        for case, l in lst[:2]:
+            n += 1
+            chk.violation("sanitizer_%d.json" % n, {"kind": "crash-leak-or-hang", "engine": "compile", "harness": "h_compile", "case": case,
+                                                    "source_text": bytes.fromhex(case.split(" ")[2].replace("-", ""))[:2000].decode("latin1") if case else None,
+                                                    "signature": {"kind": kind, "function": fn}, "implementation": l,
+                                                    "model_spec": "compilation terminates, no ASan/UBSan/LSan report, compiler destroyable"})
+            found = True
     core.handle_broken_proof(chk, lres, found)
     chk.cov.update({
         "evaluations": len(cases), "distinct_nontrivial": len(nontrivial),
